@@ -71,7 +71,8 @@ REQUIRED = dict(
              'wngrid:full', 'wngrid:restricted', 'query:at-node', 'query:T-edge-midpoint', 'query:P-edge-midpoint',
              'query:interior', 'query:exact-Tmin', 'query:exact-Tmax', 'query:exact-Pmin', 'query:exact-Pmax',
              'magnitude:tiny', 'magnitude:mid', 'magnitude:large', 'magnitude:steep', 'magnitude:ones',
-             'exp-mode-zero-in-table', 'linear-mode-zero-in-table'])
+             'exp-mode-zero-in-table', 'linear-mode-zero-in-table', 'live-switch:linear->exp', 'live-switch:exp->linear',
+             'live-switch:exp->exp', 'live-switch:linear->linear'])
 EPS = float(np.finfo(float).eps)
 TOOL_ID = 3
 
@@ -155,6 +156,12 @@ def judge(ctx, via, op, temperature, pressure, filt, result, flatten_g=None):
         Pg = np.asarray(op.pressureGrid, dtype=float)
         X = np.asarray(op.xsecGrid, dtype=float)
         mode = op._interp_mode
+        decl = _state.get('declared')
+        if decl is not None and decl[0] is op:
+            # the mode the workload asked for through the public API decides, not the object's private field
+            if mode != decl[1]:
+                ctx.check('mode-is-the-declared-one', False, private=mode, declared=decl[1])
+            mode = decl[1]
     except NotImplementedError:
         ctx.event('contract-skip:abstract-opacity')
         return None
@@ -482,12 +489,23 @@ def fake_ktable_class():
     return FakeKTable
 
 
-def run_queries(ctx, rng, op, queries, layout):
+def run_queries(ctx, rng, op, queries, layout, mode):
     """Drive the real object; the contracts judge every call.  Also: restricted grid == rows of the full result."""
     wn = np.asarray(op.wavenumberGrid, dtype=float)
     n = len(wn)
     judged0 = sum(v for k, v in ctx.monitors.items() if k.endswith(':formula'))
-    for T, P, tag in queries:
+    switch_at = set()
+    _state['declared'] = (op, mode)
+    if rng.random() < 0.5:                       # the mode is changed on the LIVE object between evaluations
+        switch_at = set(int(k) for k in rng.integers(1, max(len(queries), 2), size=int(rng.integers(1, 4))))
+    for qi, (T, P, tag) in enumerate(queries):
+        if qi in switch_at:
+            new_mode = ['linear', 'exp'][rng.integers(0, 2)]
+            if new_mode == 'exp' and np.any(np.asarray(op.xsecGrid) == 0):
+                new_mode = 'linear'
+            ctx.observe('live-switch:%s->%s' % (_state['declared'][1], new_mode))
+            op.set_interpolation_mode([' %s ', '%s', '%s'][rng.integers(0, 3)] % new_mode)
+            _state['declared'] = (op, new_mode)
         ctx.observe('query:' + tag)
         _state['tag'] = tag
         route = rng.integers(0, 4)
@@ -511,6 +529,7 @@ def run_queries(ctx, rng, op, queries, layout):
             ctx.check('restricted-equals-rows', ok, T=T, P=P, i0=i0, i1=i1, n=n, layout=layout,
                       part_shape=list(part.shape), full_shape=list(full.shape))
     _state['tag'] = None
+    _state['declared'] = None
     return sum(v for k, v in ctx.monitors.items() if k.endswith(':formula')) - judged0
 
 
@@ -540,7 +559,7 @@ def wl_xsec(ctx, rng, zeros=False):
         op = Fake('H2O', wn, T, P, x, interpolation_mode=['linear', 'exp'][rng.integers(0, 2)])
         op.set_interpolation_mode([' %s ', '%s', '%s\n'][rng.integers(0, 3)] % mode)
         ctx.observe('mode-set-via:set_interpolation_mode')
-    n = run_queries(ctx, rng, op, gen_queries(rng, T, P), 'xsec')
+    n = run_queries(ctx, rng, op, gen_queries(rng, T, P), 'xsec', mode)
     if n or zeros:
         ctx.sig('xsec', mode, x.shape, mag, float(x.sum()))
         ctx.sample({'layout': 'xsec', 'mode': mode, 'shape': list(x.shape), 'magnitude': mag, 'T': T, 'P': P,
@@ -565,7 +584,7 @@ def wl_ktable(ctx, rng):
     ctx.observe('magnitude:' + mag, 'ngauss:%d' % ng)
     ctx.feature(layout='ktable', shape=list(x.shape), mode=mode, magnitude=mag)
     op = FakeK('H2O', wn, T, P, x, w, interpolation_mode=mode)
-    n = run_queries(ctx, rng, op, gen_queries(rng, T, P, budget=56), 'ktable')
+    n = run_queries(ctx, rng, op, gen_queries(rng, T, P, budget=56), 'ktable', mode)
     if n:
         ctx.sig('ktable', mode, x.shape, mag, float(x.sum()))
 
@@ -601,7 +620,7 @@ def wl_files(ctx, rng):
               np.array_equal(np.asarray(op.temperatureGrid), T), path=os.path.basename(path))
     # the loaded pressure grid (bar*1e5) is what the queries and the oracle use
     n = run_queries(ctx, rng, op, gen_queries(rng, np.asarray(op.temperatureGrid, dtype=float),
-                                              np.asarray(op.pressureGrid, dtype=float), budget=50), layout)
+                                              np.asarray(op.pressureGrid, dtype=float), budget=50), layout, mode)
     if n:
         ctx.sig('file', layout, mode, x.shape, mag, float(x.sum()))
     os.remove(path)
